@@ -151,6 +151,17 @@ CHECK_RE = re.compile(
     r"Check \d+: (?P<name>.+)\n\s+- Status: (?P<status>\w+)\n\s+- Description: \"(?P<desc>.*)\"\n\s+- Location: (?P<loc>.*)")
 
 
+def short_fn(f):
+    """readable name of a function from a check location: generic arguments stripped;
+    `<T as Trait>::method` becomes `Trait::method [for T]`"""
+    strip = lambda x: re.sub(r"<[^<>]*>", "", re.sub(r"<[^<>]*>", "", re.sub(r"<[^<>]*>", "", x))).replace("::::", "::")
+    m = re.match(r"<(.+) as ([^>]+(?:<.*>)?)>::(\w+)", f)
+    if m:
+        ty, tr, meth = strip(m.group(1)), strip(m.group(2)), m.group(3)
+        return f"{tr}::{meth} [for {ty}]"[:140]
+    return strip(f).rstrip(":")[:140]
+
+
 def parse_kani_log(text):
     res = {"verdict": None, "checks": 0, "failed": 0, "covers_sat": None, "covers_total": None,
            "solver_s": None, "failures": [], "unwind_failed": False, "functions": [],
@@ -176,8 +187,7 @@ def parse_kani_log(text):
         if fm:
             f = fm.group(1)
             if "ast_grep_" in f:
-                # strip generic arguments for readability
-                funcs.add(re.sub(r"::<.*$", "", f.split(" as ")[0].lstrip("<"))[:120])
+                funcs.add(short_fn(f))
         if m.group("status") == "FAILURE":
             desc = m.group("desc")
             if m.group("name").startswith("__rust_dealloc."):
